@@ -382,6 +382,12 @@ def mutations(o, mode, path=None, level=0):
                 yield from mutations(v, mode, sub, level + 1)
             elif isinstance(v, list):
                 yield from _list_ops(v, sub)
+                if level == 0:
+                    # mutable objects as items of an array value (embedded objects, references)
+                    # are "mutable types in attributes" and not among the documented exceptions
+                    for i, item in enumerate(v):
+                        if isinstance(item, CIM_CLASSES):
+                            yield from mutations(item, 'shallow', sub + [['idx', i]], level + 1)
             else:
                 yield from _dict_ops(v, sub, attr)
         elif isinstance(v, CIM_CLASSES):
